@@ -1,0 +1,9 @@
+//go:build verif
+
+package main
+
+// Contracts for the deductive checker in /verif (comment-only file).
+
+// process start: no lock taken yet
+//vc:func main
+//vc:  requires[C12] !lockHeld && !lockClosed
